@@ -14,6 +14,7 @@ import (
 
 	"github.com/form3tech-oss/f1/v2/internal/verifshim/vrt"
 	"github.com/form3tech-oss/f1/v2/internal/verifshim/vtime"
+	"github.com/form3tech-oss/f1/v2/pkg/f1"
 	f1testing "github.com/form3tech-oss/f1/v2/pkg/f1/testing"
 
 	"github.com/form3tech-oss/f1/v2/internal/metrics"
@@ -254,11 +255,96 @@ func cliSuite(full bool) hlib.Suite {
 	}}
 }
 
+// publicAPISuite: the outermost entry point, f1.New().Add(...).ExecuteWithArgs(args),
+// with and without the profiling flags: it returns an error exactly when the run
+// is reported failed.
+func publicAPISuite() hlib.Suite {
+	return hlib.Suite{Name: "exit-status/f1.ExecuteWithArgs/profiling-flags", Run: func(r *hlib.Rec) {
+		dir, err := os.MkdirTemp("", "c08prof")
+		if err != nil {
+			vrt.Infra("temp dir: " + err.Error())
+		}
+		defer os.RemoveAll(dir)
+		for _, prof := range []string{"none", "cpuprofile", "memprofile", "both"} {
+			for _, outcome := range []string{"all-pass", "one-fails", "setup-fails", "teardown-fails", "dropped", "dropped-ignored"} {
+				for _, mf := range []uint64{0, 2} {
+					if !r.Mine() {
+						continue
+					}
+					r.Eval()
+					args := []string{"run", "constant", "s", "-v", "--distribution", "none", "--max-duration", "5s", "--concurrency", "1", "--max-iterations", "3", "--max-failures", fmt.Sprint(mf)}
+					rate := "1/100ms"
+					if strings.HasPrefix(outcome, "dropped") {
+						rate = "2/100ms"
+					}
+					args = append(args, "--rate", rate)
+					if outcome == "dropped-ignored" {
+						args = append(args, "--ignore-dropped")
+					}
+					if prof == "cpuprofile" || prof == "both" {
+						args = append(args, "--cpuprofile", filepath.Join(dir, "cpu.prof"))
+					}
+					if prof == "memprofile" || prof == "both" {
+						args = append(args, "--memprofile", filepath.Join(dir, "mem.prof"))
+					}
+					input := "f1.New().Add(s).ExecuteWithArgs: " + strings.Join(args, " ") + " [" + outcome + "]"
+					r.SampleCase(input)
+					var gotErr error
+					var s, f, d uint64
+					out := vrt.RunDefault(func() {
+						fw := f1.New().WithLogger(hlib.DiscardLogger())
+						fw.Add("s", func(t *f1testing.T) f1testing.RunFn {
+							if outcome == "setup-fails" {
+								t.FailNow()
+							}
+							if outcome == "teardown-fails" {
+								t.Cleanup(func() { t.FailNow() })
+							}
+							return func(t *f1testing.T) {
+								if strings.HasPrefix(outcome, "dropped") {
+									vtime.Sleep(150 * time.Millisecond)
+								}
+								if outcome == "one-fails" && t.Iteration == "2" {
+									f++
+									t.Fail()
+									return
+								}
+								s++
+							}
+						})
+						gotErr = fw.ExecuteWithArgs(args)
+					}, 60*time.Second, 0)
+					if out.Status != vrt.StOK {
+						r.Fail("C08/cli-broken", "f1.ExecuteWithArgs", out.Status.String()+": "+out.Crash+out.Detail, input)
+						continue
+					}
+					if strings.HasPrefix(outcome, "dropped") {
+						d = 1 // at least one (two requests per tick, one slow worker)
+					}
+					errs := "none"
+					if outcome == "setup-fails" || outcome == "teardown-fails" {
+						errs = "setup"
+					}
+					want := refFailed(s, f, d, errs, outcome == "dropped-ignored", mf, 0)
+					if got := gotErr != nil; got != want {
+						kind := "nil-but-should-fail"
+						if got {
+							kind = "error-but-should-pass"
+						}
+						r.Fail("C08/cli-exit-status", kind+"/f1.ExecuteWithArgs/profiling="+map[bool]string{true: "on", false: "off"}[prof != "none"], fmt.Sprintf("ExecuteWithArgs returned %v; the run had %d successful, %d failed, dropped=%v, %s: the documented rule says failed=%v", gotErr, s, f, d > 0, outcome, want), input)
+					}
+					r.Distinct(fmt.Sprintf("%s %s mf=%d", prof, outcome, mf))
+				}
+			}
+		}
+	}}
+}
+
 func suites(tier string) []hlib.Suite {
 	if tier == "quick" {
-		return []hlib.Suite{verdictSuite(20), spotSuite(100), cliSuite(false), cliFileSuite(false)}
+		return []hlib.Suite{verdictSuite(20), spotSuite(100), cliSuite(false), cliFileSuite(false), publicAPISuite()}
 	}
-	return []hlib.Suite{verdictSuite(64), spotSuite(1000), cliSuite(true), cliFileSuite(true)}
+	return []hlib.Suite{verdictSuite(64), spotSuite(1000), cliSuite(true), cliFileSuite(true), publicAPISuite()}
 }
 
 const cliFileYAML = `scenario: s
